@@ -466,6 +466,10 @@ func (w *World) afterOp(t *simrt.Task, hs *HandleState, cr *CallRec, before dirS
 		w.checkHandleView(hs, cr)
 	}
 
+	if w.DeepReads && hs.Open && cr.Class != "panic" && !w.Sim.Stop {
+		w.deepReadCheck(hs, cr)
+	}
+
 	// ---- fresh open (C04)
 	if (cr.Kind == OpOpen || cr.Kind == OpReopen) && cr.Class == "ok" && hs.Open {
 		if hs.Version >= 0 && hs.Version < cr.LatestAtStart {
@@ -482,7 +486,7 @@ func (w *World) afterOp(t *simrt.Task, hs *HandleState, cr *CallRec, before dirS
 		w.checkStaleOp(hs, cr, before)
 	}
 	// Clean succeeds whenever the list lock is free and the handle is current (C16)
-	if cr.Kind == OpClean && cr.Class != "ok" && cr.Class != "panic" && !cr.StaleAtStart && !cr.SawLockEEXIST && !w.TimeFaults {
+	if cr.Kind == OpClean && cr.Class != "ok" && cr.Class != "panic" && !cr.StaleAtStart && !cr.SawLockEEXIST && !w.TimeFaults && !w.staleByOthers(hs, cr) {
 		w.violate("C16", "clean-failed", cr.Class+"/"+errSite(cr.Err), fmt.Sprintf("Clean through a current handle with the lock free failed: %v", cr.Err))
 	}
 }
@@ -584,6 +588,10 @@ func (w *World) checkHandleView(hs *HandleState, cr *CallRec) {
 	if d := v.View.Diff(got); d != "" {
 		if w.Sequential {
 			prop = "C03"
+			if cr.Replaces > 0 {
+				// the compacting handle's view changed across its own compaction
+				w.violate("C07", "compaction-changed-view", "handle-scan/"+cr.Kind, fmt.Sprintf("handle %d after its compaction (version %d): %s", hs.Idx, v.N, d))
+			}
 		}
 		w.violate(prop, "wrong-data", "handle-scan/"+cr.Kind, fmt.Sprintf("handle %d at version %d: %s", hs.Idx, v.N, d))
 		return
